@@ -152,6 +152,14 @@ def Rxn.toWt (mw : Vec) (rx : Rxn) : Except Err Rxn :=
 def Rxn.toMol (mw : Vec) (rx : Rxn) : Except Err Rxn :=
   (rescale (hdiv rx.nu mw) rx.r).map fun nu => { rx with nu }
 
+/-- `Reaction.correct_atomic_balance(constants)`: the coefficients that are not held constant are
+replaced by the solution `x` of the linear atom balance (an external solve — `numpy.linalg.solve` /
+`lstsq` — hence a parameter: the balanced stoichiometry by mol, in the layout of `nu`), written
+back in the reaction's basis (`· MW` for a weight-basis reaction), and the stoichiometry is put on a
+per-reactant basis again (`_rescale`). -/
+def Rxn.rebalance (rx : Rxn) (basis : Basis) (mw x : Vec) : Except Err Rxn :=
+  Rxn.make (match basis with | .mol => x | .wt => hmul x mw) rx.r rx.X
+
 /-! ### package remap (`reset_chemicals` of the stream's indexer) -/
 
 /-- flow of the chemical with identity `u` in a row laid out by package `pkg` -/
